@@ -7,7 +7,10 @@
 (* hold a copy, for every file (and the main file) the sequence of names   *)
 (* it includes, the set of extra directories passed with -I, and whether   *)
 (* one of them is passed twice under two spellings.  The main file lives   *)
-(* in directory d0, which is always searched.                              *)
+(* in directory d0, which is always searched.  skipmain: the LAST include  *)
+(* line of the main file stands in a conditional block that is not         *)
+(* selected - it contributes nothing and is not even looked up, whether    *)
+(* the file it names is missing, ambiguous or already included.            *)
 (*                                                                         *)
 (* The implementation iterates over a SET of search directories, so the    *)
 (* order is arbitrary: LocateLoop is that loop for one order, LocateDecl   *)
@@ -27,8 +30,9 @@ VARIABLES place,    \* [Files -> SUBSET Dirs]   where copies of each file exist
           incs,     \* [Nodes -> IncSeqs]       the include lines of each file, in order
           passed,   \* SUBSET ExtraDirs         -I directories
           dup,      \* BOOLEAN                  one passed directory is given twice under another spelling
+          skipmain, \* BOOLEAN                  main's last include line is inside an unselected conditional block
           done
-vars == <<place, incs, passed, dup, done>>
+vars == <<place, incs, passed, dup, skipmain, done>>
 
 Search == passed \cup {"d0"}
 
@@ -54,9 +58,10 @@ OrderIndependent == \A name \in Files : \A o \in Orders : LocateLoop(name, o, 1,
 \* Walk the include graph from a file; used is the run-wide set of file paths already opened.
 \* w: [st, used, out]   out = sequence of file names in the order their own text is assembled
 RECURSIVE Walk(_, _), WalkIncs(_, _, _)
+EffIncs(file) == IF file = "main" /\ skipmain /\ incs[file] # <<>> THEN Front(incs[file]) ELSE incs[file]
 Walk(file, w) ==
     \* a file assembles its own marker first, then its includes in order
-    WalkIncs(incs[file], 1, [w EXCEPT !.out = Append(@, file)])
+    WalkIncs(EffIncs(file), 1, [w EXCEPT !.out = Append(@, file)])
 WalkIncs(seq, j, w) ==
     IF w.st # "ok" \/ j > Len(seq) THEN w
     ELSE LET name == seq[j]
@@ -73,8 +78,9 @@ Init == /\ place \in [Files -> SUBSET Dirs]
         /\ passed \in SUBSET ExtraDirs
         /\ dup \in BOOLEAN
         /\ (dup => passed # {})
+        /\ skipmain \in BOOLEAN
         /\ done = FALSE
-Next == ~done /\ done' = TRUE /\ UNCHANGED <<place, incs, passed, dup>>
+Next == ~done /\ done' = TRUE /\ UNCHANGED <<place, incs, passed, dup, skipmain>>
 Spec == Init /\ [][Next]_vars
 
 \* design properties
@@ -86,7 +92,7 @@ AcceptedMeansAllUnique ==
 DirOrder == <<"d0", "d1", "d2", "d3">>
 AsSeq(S) == SelectSeq(DirOrder, LAMBDA d : d \in S)
 Scenario == [place |-> [f \in Files |-> AsSeq(place[f])],
-             incs |-> incs, passed |-> AsSeq(passed), dup |-> dup,
+             incs |-> incs, passed |-> AsSeq(passed), dup |-> dup, skipmain |-> skipmain,
              st |-> Outcome.st, out |-> Outcome.out]
 \* only configurations in which main includes something are worth replaying
 Emit == (done /\ incs["main"] # <<>>) => PrintT(<<"EMIT", ToJson(Scenario)>>)
